@@ -81,7 +81,8 @@ def corpus_files(ctx):
     binp = ctx.go_build('jqtree')
     ep = os.path.join(ctx.build, 'jq_ev_files.ndjson')
     ctx.run([binp, 'files', jp, ep], check=True, timeout=3000)
-    evs = [e for e in vlib.read_ndjson(ep) if 0 < len(e['nodes']) <= 250 and len(e['obs']) > 0]
+    evs = [e for e in vlib.read_ndjson(ep) if 0 < len(e['nodes']) <= 250 and len(e['obs']) > 0
+           and all(abs(n['start']) < (1 << 30) and abs(n['len']) < (1 << 30) for n in e['nodes'])]      # TLC integers are 32 bit
     ctx.cov['jq_corpus'] = dict(files=len(jobs), trees_judged=len(evs))
     return evs
 
